@@ -1075,19 +1075,17 @@ class QuantityMeta(ClassWithDefinitionMeta):
             unit._definition = None
             unit._equiv = None
         assert symbol, "A symbol must be given for the unit."
-        try:
-            _SYMBOL_UNIT_MAP[symbol]
-        except KeyError:
-            _SYMBOL_UNIT_MAP[symbol] = unit
-        else:
+        if symbol in _SYMBOL_UNIT_MAP:
             raise ValueError(
                 f"Unit with symbol '{symbol}' already registered.")
         unit._symbol = symbol
         unit._name = name
-        cls._unit_map[symbol] = unit
-        # UnitRegistryT has unique_items=False, so this will not raise an
-        # exception!
+        # UnitRegistryT has unique_items=False, so this will not raise a
+        # ValueError. But comparing the unit with an already registered one
+        # can fail, so the unit must not be registered by its symbol before.
         _TERM_UNIT_MAP.register_item(unit)
+        _SYMBOL_UNIT_MAP[symbol] = unit
+        cls._unit_map[symbol] = unit
         return unit
 
     def _make_ref_unit(cls, symbol: str, name: Optional[str],  # noqa: N805
